@@ -7,13 +7,13 @@ LEAN_MODULES = ["PyAirtouch.Props.C18"]
 LEVEL = "proof"
 
 NAMES = [b"Home", b"My, Home", b"a,b,c", "Café".encode(), "\U0001F3E0 house".encode(), b"", b" ", b",", b"x" * 40]
-HOSTS = [b"192.168.1.5", b"10.0.0.7", b"console.local"]
+HOSTS = [b"192.168.1.5", b"10.0.0.7", b"console.local", b"airtouch-console-livingroom.home.example.org", b"fe80::1ff:fe23:4567:890a%eth0", b"h" * 200]
 
 
 def valid(gen, rng):
     host = rng.choice(HOSTS)
-    serial = rng.choice([b"AT5SERIAL01", b"00:11:22:33:44:55", b"S"])
-    aid = rng.choice([b"12345678", b"ID", b"0"])
+    serial = rng.choice([b"AT5SERIAL01", b"00:11:22:33:44:55", b"S", b"SERIAL-0123456789-ABCDEFGHIJKLMNOP", b"s" * 300])
+    aid = rng.choice([b"12345678", b"ID", b"0", b"9" * 40])
     if gen == 4:
         return b",".join([host, serial, b"AirTouch4", aid])
     return b",".join([host, serial, b"AirTouch5", aid, rng.choice(NAMES)])
@@ -77,7 +77,7 @@ def run(ctx, deep=False):
     n = 6000 if thorough else 500
     ctx.coverage["rule"] = (
         "searches with 0..6 datagrams arriving at ticks around the three request instants (never exactly on one): grammar-generated "
-        "valid responses (commas / multi-byte text / empty names), echoes of the request, the other generation's response, missing "
+        "valid responses (commas / multi-byte text / empty names / fields of 1..300 bytes), echoes of the request, the other generation's response, missing "
         "parts, marker misplaced, invalid UTF-8, empty and random datagrams, duplicates; broadcast and unicast; the real "
         "AirTouchDiscoverer.search() on the virtual clock with a fake UDP endpoint compared with the Lean model's search and judged by "
         "Spec.Discovery (request instants, return instant, exactly the valid distinct responses); factory.discover() clients checked "
